@@ -8,6 +8,7 @@ import (
 	"crypto/x509"
 	"crypto/x509/pkix"
 	"encoding/pem"
+	"errors"
 	"fmt"
 	"io"
 	"math/big"
@@ -21,6 +22,24 @@ import (
 	"github.com/quic-go/quic-go/logging"
 	"github.com/quic-go/quic-go/qlog"
 )
+
+// quicPacketConn is the PacketConn handed to quic-go.  quic-go gives a connection up on any send error.
+// While the route to the peer is changing, a datagram may find that the link to its next hop has
+// just gone (the routing table is recomputed a moment later): such a datagram is lost, as any datagram
+// may be, and QUIC retransmits it - the stream must not break because of it.
+type quicPacketConn struct {
+	PacketConner
+}
+
+// WriteTo sends a datagram, treating a momentarily missing next-hop connection as loss of the datagram.
+func (q quicPacketConn) WriteTo(p []byte, addr net.Addr) (int, error) {
+	n, err := q.PacketConner.WriteTo(p, addr)
+	if errors.Is(err, ErrNoConnectionToNextHop) {
+		return len(p), nil
+	}
+
+	return n, err
+}
 
 // MaxIdleTimeoutForQuicConnections for quic connections. The default is 30 which we have replicated here.
 // This value is set on both Dial and Listen connections as the quic library would take the smallest of either connection.
@@ -102,7 +121,7 @@ func (s *Netceptor) listen(ctx context.Context, service string, tlscfg *tls.Conf
 	statelessResetKey := make([]byte, 32)
 	rand.Read(statelessResetKey)
 	tr := quic.Transport{
-		Conn:              pc,
+		Conn:              quicPacketConn{pc},
 		StatelessResetKey: (*quic.StatelessResetKey)(statelessResetKey),
 	}
 	_ = os.Setenv("QUIC_GO_DISABLE_RECEIVE_BUFFER_WARNING", "1")
@@ -367,7 +386,7 @@ func (s *Netceptor) DialContext(ctx context.Context, node string, service string
 	statelessResetKey := make([]byte, 32)
 	rand.Read(statelessResetKey)
 	tr := quic.Transport{
-		Conn:              pc,
+		Conn:              quicPacketConn{pc},
 		StatelessResetKey: (*quic.StatelessResetKey)(statelessResetKey),
 	}
 	qc, err := tr.Dial(cctx, rAddr, tlscfg, cfg)
